@@ -35,6 +35,10 @@ type scratchCtx struct {
 	// a source counts as a sink (used by the sharing analysis, where the source is "field K of any object")
 	src            func(e ast.Expr) bool
 	sameFieldSinks bool
+	// sinkKey: if set, only stores into (or literal elements for) this field count as sinks
+	sinkKey string
+	// skipSink: stores into these fields are not sinks (views held by short-lived iterator objects)
+	skipSink func(key string) bool
 }
 
 // selfStore: the value stored into field lv is (a re-slice of / an append to) that very field of the same object.
@@ -247,7 +251,7 @@ func (sc *scratchCtx) analyse(f *core.Func, symbolic *types.Var) (map[int]bool, 
 							S = setDel(S, lv.Name)
 						}
 					case *ast.SelectorExpr:
-						if t && (sc.sameFieldSinks && !sc.selfStore(lv, x.Rhs[i]) || !sc.isSrc(lv)) && m.AccessPath(f, lv).Kind != core.RootFresh {
+						if t && (sc.sinkKey == "" || fieldKeyOf(m, lv) == sc.sinkKey) && (sc.skipSink == nil || !sc.skipSink(fieldKeyOf(m, lv))) && (sc.sameFieldSinks && !sc.selfStore(lv, x.Rhs[i]) || !sc.isSrc(lv)) && m.AccessPath(f, lv).Kind != core.RootFresh {
 							sink(x, facts, fmt.Sprintf("%s stores %s, which is derived from a scratch buffer of the storage, into %s; the field would change when the scratch buffer is used again", f.Name, m.ExprString(x.Rhs[i]), m.ExprString(lv)))
 						}
 					}
@@ -286,7 +290,7 @@ func (sc *scratchCtx) analyse(f *core.Func, symbolic *types.Var) (map[int]bool, 
 				}
 			}
 		case *ast.KeyValueExpr:
-			if sc.tainted(f, S, x.Value) {
+			if sc.tainted(f, S, x.Value) && (sc.sinkKey == "" || litFieldKey(m, x) == sc.sinkKey) && (sc.skipSink == nil || !sc.skipSink(litFieldKey(m, x))) {
 				sink(x, facts, fmt.Sprintf("%s puts %s, which is derived from a scratch buffer of the storage, into a composite literal", f.Name, m.ExprString(x.Value)))
 			}
 		case *ast.ReturnStmt:
